@@ -184,6 +184,8 @@ template <class C> struct Ctx {
   alignas(16) uint8_t buf2[sizeof(V)];
   void relocate() {
     static_assert(amc::is_trivially_relocatable<V>::value, "VF_RELOC requires a container that claims the trait");
+    // the object has been used through its public interface before it is moved (anything it may have cached is cached now)
+    { const V &cv = *pv; volatile uintptr_t sink = addr(cv.data()) + cv.size() + cv.capacity() + addr(pv->begin()); (void)sink; }
     std::memcpy(buf2, buf, sizeof(V));
     uint8_t pat = nd8();
     std::memset(buf, pat, sizeof(V));
